@@ -24,14 +24,51 @@ def mkworld(init_state):
     return w
 
 
-def build_with_atoms(init_state):
+def build_with_atoms(init_state, ids=None):
     # atoms must be interned before any text is projected so that MC atom a == interned atom a
     from harness.world import Atoms
     at = Atoms()
     w0 = World(atoms=at)
     w0.mc_atoms(TEXTS)
-    w = World.build(init_state, ns_via_api=True, atoms=at)
+    w = World.build(init_state, ns_via_api=True, atoms=at, ids=ids)
     return w
+
+
+NOSTORE = tuple(f for f in ALLF if f != "store")
+
+
+def dup_id_variant(t, ik, path):
+    """The same history on a template whose nodes were constructed with explicit, REPEATED ids (Node(name, id=...)
+    accepts any id): the copy must still equal the original in every field and order, and its ids must still be fresh,
+    pairwise distinct and registered.  The registry of the originals is degenerate here and is not compared."""
+    out = []
+    w = build_with_atoms(G["states"][ik], ids=lambda i: f"dup-{i % 2}")
+    ops = []
+    for (op, tk) in path:
+        ok, ret, exc = w.apply(op["name"], op["args"])
+        ops.append(op)
+        if not ok or canon(w.pi(ALLF), NOSTORE) != canon(G["states"][tk] if tk in G["states"] else {}, NOSTORE):
+            return out          # an access path that needs the registry (delete by id) does not carry over
+    op = t["op"]
+    nb = len(w.nodes)
+    old_ids = {x.id for x in w.nodes}
+    ok, ret, exc = w.apply(op["name"], op["args"])
+    replay = {"kind": "history-duplicate-ids", "template": G["states"][ik], "ops": ops + [op], "ids": "dup-(i mod 2)"}
+    if not ok:
+        return [(opkey(op, "raised:duplicate-ids", exc), repr(exc), replay)]
+    after = w.pi(ALLF)
+    if canon(after, NOSTORE) != canon(t["to"], NOSTORE):
+        d = diff_nodes({k: v for k, v in t["to"].items() if k != "store"}, {k: v for k, v in after.items() if k != "store"})
+        out.append(("copy:not-equal:duplicate-ids:" + ",".join(sorted(d)), f"originals carry repeated ids; fields {d}: expected {jdump(t['to'])} got {jdump(after)}", replay))
+    new = w.nodes[nb:]
+    nids = [x.id for x in new]
+    if len(set(nids)) != len(nids) or set(nids) & old_ids:
+        out.append(("copy:id-not-fresh:duplicate-ids", str(nids), replay))
+    if any(Node.get_node_instance(x.id) is not x for x in new):
+        out.append(("copy:new-node-not-registered:duplicate-ids", str(nids), replay))
+    if w.parent_links_ok():
+        out.append(("copy:parent-link-outside-copy:duplicate-ids", str(w.parent_links_ok()), replay))
+    return out
 
 
 def tree_of(state, n):
@@ -104,6 +141,7 @@ def w_c12(idx):
             pl = w.parent_links_ok()
             if pl:
                 out.append(("copy:parent-link-outside-copy", str(pl), replay))
+            out += dup_id_variant(t, ik, G["access"][fk][1])
         if canon(after) != canon(t["to"]):
             d = diff_nodes(t["to"], after)
             if op["name"] == "copy":
@@ -179,6 +217,37 @@ def w_c18(idx):
         compare(e, False)
         if e["lvl"] > 1:
             compare(e, True)
+    return n, out, npairs
+
+
+def w_shapes(idx):
+    """MC_Shapes: both trees of every logged pair are built as they are (no history) and every ordered pair of
+    distinct nodes is compared."""
+    out, n, npairs = [], 0, 0
+    for i in idx:
+        e = G["SH"][i]
+        w = World.build(e["st"])
+        before = w.pi(ALLF)
+        eq = {tuple(p) for p in e["eq"]}
+        N = len(w.nodes)
+        for a in range(1, N + 1):
+            for b in range(1, N + 1):
+                if a == b:
+                    continue
+                npairs += 1
+                try:
+                    got = Node.is_equal(w.n(a), w.n(b))
+                except Exception as exc:  # noqa: BLE001
+                    out.append((f"is_equal:raised:{type(exc).__name__}:shapes", repr(exc), {"kind": "shapes", "state": e["st"], "a": a, "b": b}))
+                    continue
+                want = (a, b) in eq
+                if bool(got) != want:
+                    where = first_difference(e["st"], a, b) if not want else "equal"
+                    out.append((f"is_equal:{'false-positive' if got else 'false-negative'}:{where}:shapes",
+                                f"is_equal({a},{b}) = {got}, TreeEq = {want}; state {jdump(e['st'])}", {"kind": "shapes", "state": e["st"], "a": a, "b": b, "expected": want}))
+        if canon(w.pi(ALLF)) != canon(before):
+            out.append(("is_equal:mutates:shapes", "", {"kind": "shapes", "state": e["st"]}))
+        n += 1
     return n, out, npairs
 
 
